@@ -27,6 +27,18 @@ func runCmd(f func()) (panicked bool) {
 	return false
 }
 
+// verifExitStatus: the status the process ends with - the argument of os.Exit, 2 after an escaping
+// panic, and 0 when the command simply returns (main returns after it).
+func verifExitStatus(panicked bool) int {
+	if panicked {
+		return 2
+	}
+	if c := v.ExitCode(); c >= 0 {
+		return c
+	}
+	return 0
+}
+
 var verifC18Out = "OUT"
 
 // VerifC18Validate: `acv validate P D [OUT]` against every prior state of OUT.
@@ -61,10 +73,7 @@ func VerifC18Validate() {
 		v.SetArgs([]string{"acv", "validate", "P", "D"})
 	}
 	panicked := runCmd(Validate)
-	code := v.ExitCode()
-	if panicked {
-		code = 2
-	}
+	code := verifExitStatus(panicked)
 	failed := code != 0
 	if libErr {
 		v.Reach("lib-failed")
@@ -101,10 +110,7 @@ func VerifC18Generate() {
 	v.FSPut("P", "profile-text", false)
 	v.SetArgs([]string{"acv", "generate", "P"})
 	panicked := runCmd(Generate)
-	ec := v.ExitCode()
-	if panicked {
-		ec = 2
-	}
+	ec := verifExitStatus(panicked)
 	if libErr {
 		v.Reach("lib-failed")
 		v.Assert("C18.exit-nonzero-on-failure", ec != 0)
@@ -128,10 +134,7 @@ func VerifC18Normalize() {
 	v.FSPut("D", "data-text", false)
 	v.SetArgs([]string{"acv", "normalize", "D"})
 	panicked := runCmd(Normalize)
-	ec := v.ExitCode()
-	if panicked {
-		ec = 2
-	}
+	ec := verifExitStatus(panicked)
 	if libErr {
 		v.Reach("lib-failed")
 		v.Assert("C18.exit-nonzero-on-failure", ec != 0)
@@ -173,10 +176,7 @@ func VerifC18Args() {
 	default:
 		panicked = runCmd(Normalize)
 	}
-	ec := v.ExitCode()
-	if panicked {
-		ec = 2
-	}
+	ec := verifExitStatus(panicked)
 	okArgs := (cmd == 0 && (n == 4 || n == 5)) || (cmd != 0 && n == 3)
 	if !okArgs || missing {
 		v.Reach("bad-invocation")
@@ -201,8 +201,19 @@ func VerifC18ValidateNative() {
 	profile := filepath.Join(root, "test/data/integration/profile1/profile.yaml")
 	data := filepath.Join(root, "test/data/integration/profile1/negative.data.jsonld")
 	if v.ReplayBool("libErr") {
+		// a data text for the kind of failure the stub chose: rejected by the JSON-LD processor, cut off
+		// inside its JSON value (the decoder's io.ErrUnexpectedEOF), or empty (io.EOF)
 		data = filepath.Join(dir, "missing-or-bad.jsonld")
-		os.WriteFile(data, []byte("{\"@context\": 42}"), 0o644)
+		bad := "{\"@context\": 42}"
+		if _, asked := v.ReplayInput("libErrKind"); asked {
+			switch v.ReplayInt("libErrKind") {
+			case 1:
+				bad = "{\"@id\": \"http://x/a\", \"@type\": [\"http://a.ml/vocabularies/apiContract#EndPoint\""
+			case 2:
+				bad = ""
+			}
+		}
+		os.WriteFile(data, []byte(bad), 0o644)
 	}
 	toFile := v.ReplayInt("toFile") == 1
 	if !toFile && !v.ReplayBool("libErr") {
@@ -226,6 +237,26 @@ func VerifC18ValidateNative() {
 		so, _, code := v.RunCmd(dir, acv, "validate", pf, df)
 		v.Assert("C18.stdout-exact", dropDate(so) == dropDate(lib+"\n"))
 		v.Assert("C18.exit-zero", code == 0)
+		// files of other shapes: CRLF line ends, no final newline, one line longer than 64 KiB
+		// (minified data, a long flow list in the profile)
+		long := strings.Repeat("x", 70000)
+		variants := [][2]string{
+			{strings.ReplaceAll(prof, "\n", "\r\n"), doc},
+			{strings.TrimRight(prof, "\n"), doc + "\n\n"},
+			{prof, `{"@id": "http://x/a", "@type": "http://a.ml/vocabularies/apiContract#EndPoint", "http://a.ml/vocabularies/core#name": "` + long + `"}`},
+			{"#%Validation Profile 1.0\n# " + long + "\n" + strings.TrimPrefix(prof, "#%Validation Profile 1.0\n"), doc},
+		}
+		for _, pd := range variants {
+			os.WriteFile(pf, []byte(pd[0]), 0o644)
+			os.WriteFile(df, []byte(pd[1]), 0o644)
+			lib, lerr := validator.Validate(pd[0], pd[1], false, nil)
+			if lerr != nil {
+				panic(lerr)
+			}
+			so, _, code := v.RunCmd(dir, acv, "validate", pf, df)
+			v.Assert("C18.stdout-exact", dropDate(so) == dropDate(lib+"\n"))
+			v.Assert("C18.exit-zero", code == 0)
+		}
 		return
 	}
 	// the library's report for these inputs, as the library itself prints it
